@@ -35,6 +35,10 @@ pub trait Observer: Send + Sync {
     fn lock(&self, _name: &'static str, _mode: &'static str, _phase: u8) {}
     /// Page ownership: `op` is "alloc", "write" or "free".
     fn page(&self, _op: &'static str, _page: u64, _structure: &'static str) {}
+    /// Level of the next node inserted into the vector index; `None` = draw it at random as usual.
+    fn hnsw_level(&self) -> Option<u8> {
+        None
+    }
     /// External id allocation; returns the id to use.
     fn ext_id(&self, _counter: u64, computed: u64) -> u64 {
         computed
@@ -128,6 +132,10 @@ pub fn page_by(op: &'static str, page: u64, who: &'static str) {
     if let Some(o) = current() {
         o.page(op, page, who);
     }
+}
+
+pub fn hnsw_level() -> Option<u8> {
+    current().and_then(|o| o.hnsw_level())
 }
 
 pub fn ext_id(counter: u64, computed: u64) -> u64 {
